@@ -26,10 +26,16 @@ inductive Builtin
   | strLength (lo hi : Option Nat)
   deriving Repr, DecidableEq, Inhabited
 
-/-- string view of a value for the `str_*` checks; `none` for non-strings
-(pandas' `.str` accessor yields NaN for them, which `na=False` turns into False) -/
+/-- string view of a value for the `str_*` checks -/
 def Val.str? : Val → Option String
   | .str s => some s
+  | _ => none
+
+/-- a `.str.<method>(…, na=False)` result: the method on strings, `False` on nulls, and an
+exception for any other value (the `.str` accessor refuses non-string columns) -/
+def strOp (f : String → Bool) : Val → Option Bool
+  | .str s => some (f s)
+  | .null => some false
   | _ => none
 
 def optAnd (a b : Option Bool) : Option Bool :=
@@ -51,16 +57,13 @@ def docPred : Builtin → Val → Option Bool
            (if ih then Val.le? v hi else Val.lt? v hi)
   | .isin vs, v => some (vs.any (Val.eqv v))
   | .notin vs, v => some (!vs.any (Val.eqv v))
-  | .strMatches p, v => some (match v.str? with | some s => p.prefixMatch s | none => false)
-  | .strContains p, v => some (match v.str? with | some s => p.search s | none => false)
-  | .strStartswith a, v => some (match v.str? with | some s => a.toList.isPrefixOf s.toList | none => false)
-  | .strEndswith a, v => some (match v.str? with | some s => a.toList.isSuffixOf s.toList | none => false)
+  | .strMatches p, v => strOp (fun s => p.prefixMatch s) v
+  | .strContains p, v => strOp (fun s => p.search s) v
+  | .strStartswith a, v => strOp (fun s => a.toList.isPrefixOf s.toList) v
+  | .strEndswith a, v => strOp (fun s => a.toList.isSuffixOf s.toList) v
   | .strLength lo hi, v =>
-    match v.str? with
-    | some s =>
-      some ((match lo with | some l => decide (l ≤ s.length) | none => true)
-         && (match hi with | some h => decide (s.length ≤ h) | none => true))
-    | none => some false
+    strOp (fun s => (match lo with | some l => decide (l ≤ s.length) | none => true)
+                 && (match hi with | some h => decide (s.length ≤ h) | none => true)) v
 
 structure CheckSpec where
   b : Builtin
